@@ -39,10 +39,15 @@ const (
 	TUnderflow
 	TOOG
 	TSelfdestruct
+	TReturnEF  // RETURN 32 bytes starting with 0xEF (rejected as contract code from London on)
+	TReturnBig // RETURN 24577 zero bytes (one more than the maximum code size)
 	NumTerms
 )
 
-var termNames = [...]string{"STOP", "RETURN", "REVERT", "INVALID", "UNDERFLOW", "OOG", "SELFDESTRUCT"}
+var termNames = [...]string{"STOP", "RETURN", "REVERT", "INVALID", "UNDERFLOW", "OOG", "SELFDESTRUCT", "RETURN_EF", "RETURN_BIG"}
+
+// BigLen is the length returned by TReturnBig.
+const BigLen = 24577
 
 type Kind int
 
@@ -111,6 +116,7 @@ type GenOpts struct {
 	MaxFrames  int      // total number of frames (0 = unbounded within depth)
 	LeafCalls  bool     // frames at the depth bound may still call precompiles / code-less accounts
 	PreEffects []Effect // alphabet of the pre-effect position (nil: Effects)
+	InitTerms  []Term   // terminator alphabet of init-code frames (nil: Terms)
 }
 
 func (s *Scn) String() string {
@@ -153,6 +159,10 @@ func GenFrame(c *mc.Ctx, o *GenOpts, depth int, next *int) *Frame {
 }
 
 func genFrame(c *mc.Ctx, o *GenOpts, depth int, next *int, ownCtx bool) *Frame {
+	return genFrame2(c, o, depth, next, ownCtx, false)
+}
+
+func genFrame2(c *mc.Ctx, o *GenOpts, depth int, next *int, ownCtx, isInit bool) *Frame {
 	f := &Frame{ID: *next}
 	*next++
 	pre := o.PreEffects
@@ -189,12 +199,16 @@ func genFrame(c *mc.Ctx, o *GenOpts, depth int, next *int, ownCtx bool) *Frame {
 			cl.InLen = 0
 		}
 		if tg == TgChild {
-			cl.Child = genFrame(c, o, depth+1, next, cl.Kind == KCall || cl.Kind == KStaticCall)
+			cl.Child = genFrame2(c, o, depth+1, next, cl.Kind == KCall || cl.Kind == KStaticCall, cl.Kind.IsCreate())
 		}
 		f.Call = cl
 	}
 	f.Post = o.Effects[c.Choose(len(o.Effects))]
-	f.Term = o.Terms[c.Choose(len(o.Terms))]
+	terms := o.Terms
+	if isInit && o.InitTerms != nil {
+		terms = o.InitTerms
+	}
+	f.Term = terms[c.Choose(len(terms))]
 	return f
 }
 
@@ -215,6 +229,13 @@ func logTopic(id, pos int) uint64 {
 }
 func FlagSlot(id int) uint64 { return uint64(0x2000 + id) }
 func RdsSlot(id int) uint64  { return uint64(0x3000 + id) }
+
+// MarkerEF is the word returned by TReturnEF.
+func MarkerEF(id int) common.Hash {
+	h := marker(id)
+	h[0] = 0xEF
+	return h
+}
 
 func marker(id int) common.Hash { return common.BigToHash(big.NewInt(int64(0xEE0000 + id))) }
 
@@ -383,6 +404,10 @@ func compileFrame(f *Frame, fork world.Fork, static bool, depth int) []byte {
 		p.Push(1).Push(1 << 40).Op(asm.MSTORE)
 	case TSelfdestruct:
 		p.PushAddr(world.Origin).Op(asm.SELFDESTRUCT)
+	case TReturnEF:
+		p.Push32(MarkerEF(f.ID)).Push(0).Op(asm.MSTORE).Push(32).Push(0).Op(asm.RETURN)
+	case TReturnBig:
+		p.Push(BigLen).Push(0).Op(asm.RETURN)
 	}
 	if patchAt >= 0 {
 		off := p.Len()
